@@ -31,12 +31,21 @@ Proof. intros A l H. destruct l; [reflexivity|discriminate]. Qed.
 (* what cmd_revision returns, as a function of what cmd_diff returns *)
 Definition rev_visible (o : rev_out) : Prop :=
   o = RevRefused \/ o = RevNeedsTty \/ o = RevRefusedVersion \/ o = RevRefusedExists
-  \/ exists file p, o = RevWrote file p.
+  \/ (exists e, o = RevRefusedInvalid e) \/ exists file p, o = RevWrote file p.
+
+Lemma finish_visible : forall P m env v b a2,
+  rev_visible (revision_finish P m env v b a2) /\ revision_finish P m env v b a2 <> RevNeedsTty.
+Proof.
+  intros P m env v b a2. unfold revision_finish.
+  destruct (validate_migration_plan _) as [u|e].
+  - destruct (mem_str _ (file_names P)); (split; [unfold rev_visible; eauto 12|discriminate]).
+  - split; [unfold rev_visible; eauto 12|discriminate].
+Qed.
 
 Ltac rev_leaf :=
   eexists; split; [reflexivity|]; split;
-  [unfold rev_visible; eauto 10
-  |first [intros _ Hx; discriminate Hx | intros Hx; discriminate Hx]].
+  [first [apply finish_visible | unfold rev_visible; eauto 12]
+  |first [intros _; apply finish_visible | intros _ Hx; discriminate Hx | intros Hx; discriminate Hx]].
 
 Lemma revision_cases : forall P m f env,
   match cmd_diff P with
@@ -59,14 +68,11 @@ Proof.
   set (fv := parse_fill_with_args f).
   set (a0 := map (apply_fill fv) acts).
   destruct (collect_fills a0 baseline) as [|mi mr] eqn:Hmiss.
-  - destruct (find_missing_enum_fill_with (mkPlan "" None None 0 a0) baseline) as [|ei er] eqn:Hme.
-    + match goal with |- context [mem_str ?n ?l] => destruct (mem_str n l) end; rev_leaf.
-    + destruct (re_tty env) eqn:Htty; [|rev_leaf].
-      match goal with |- context [mem_str ?n ?l] => destruct (mem_str n l) end; rev_leaf.
+  - destruct (find_missing_enum_fill_with (mkPlan "" None None 0 a0) baseline) as [|ei er] eqn:Hme; [rev_leaf|].
+    destruct (re_tty env) eqn:Htty; rev_leaf.
   - destruct (re_tty env) eqn:Htty; [|rev_leaf].
     set (a1 := map (apply_fill (fv ++ mi :: mr)) a0).
-    destruct (find_missing_enum_fill_with (mkPlan "" None None 0 a1) baseline) as [|ei er] eqn:Hme;
-      match goal with |- context [mem_str ?n ?l] => destruct (mem_str n l) end; rev_leaf.
+    destruct (find_missing_enum_fill_with (mkPlan "" None None 0 a1) baseline) as [|ei er] eqn:Hme; rev_leaf.
 Qed.
 
 Theorem diff_iff_revision : forall P m f env,
@@ -82,7 +88,7 @@ Proof.
     repeat split.
     + intros [a Ha]. discriminate Ha.
     + intros [o [Ho Hv]]. rewrite H in Ho. inversion Ho; subst o.
-      destruct Hv as [Hv|[Hv|[Hv|[Hv|[x [y Hv]]]]]]; discriminate Hv.
+      destruct Hv as [Hv|[Hv|[Hv|[Hv|[[x Hv]|[x [y Hv]]]]]]]; discriminate Hv.
     + intros _. exact H.
     + intros He. discriminate He.
     + intros He. rewrite H in He. discriminate He.
@@ -93,7 +99,7 @@ Proof.
     + intros _. exists acts. reflexivity.
     + intros Hd. discriminate Hd.
     + intros Hr. rewrite Ho in Hr. inversion Hr; subst o.
-      destruct Hv as [Hv|[Hv|[Hv|[Hv|[x [y Hv]]]]]]; discriminate Hv.
+      destruct Hv as [Hv|[Hv|[Hv|[Hv|[[x Hv]|[x [y Hv]]]]]]]; discriminate Hv.
     + intros He. discriminate He.
     + intros He. rewrite Ho in He. discriminate He.
     + intros Htty Hn. rewrite Ho in Hn. inversion Hn; subst o. exact (Ht Htty eq_refl).
@@ -108,56 +114,63 @@ Proof.
 Qed.
 
 (* ------------------------------------------------------------------ sql vs diff *)
-Theorem sql_renders_diff : forall P,
-  pj_prefix P = "" ->
-  (cmd_diff P = Ok DiffNone <-> cmd_sql P = Ok SqlNone)
-  /\ (forall acts, cmd_diff P = Ok (DiffChanges acts) <->
-                   exists v b, cmd_sql P = Ok (SqlRender v acts b)).
+Lemma prefixed_plan_parts : forall pfx v acts,
+  p_actions (plan_with_prefix pfx (mkPlan "" None None v acts)) = map (action_with_prefix pfx) acts
+  /\ p_version (plan_with_prefix pfx (mkPlan "" None None v acts)) = v.
 Proof.
-  intros P Hp. unfold cmd_diff, cmd_sql. rewrite Hp.
-  destruct (load_models P) as [models|e].
-  2:{ split; [split; intros H; discriminate H|]. intros acts. split; [intros H; discriminate H|intros [v [b H]]; discriminate H]. }
-  destruct (load_migrations P) as [plans|e].
-  2:{ split; [split; intros H; discriminate H|]. intros acts. split; [intros H; discriminate H|intros [v [b H]]; discriminate H]. }
-  rewrite map_plan_with_prefix_empty, plan_next_unfold.
-  destruct (replay plans) as [baseline|e].
-  2:{ split; [split; intros H; discriminate H|]. intros acts. split; [intros H; discriminate H|intros [v [b H]]; discriminate H]. }
-  destruct (diff_actions baseline models) as [acts0|e].
-  2:{ split; [split; intros H; discriminate H|]. intros acts. split; [intros H; discriminate H|intros [v [b H]]; discriminate H]. }
-  rewrite plan_with_prefix_empty. cbn [p_actions p_version].
-  destruct (is_nil acts0) eqn:Hn.
-  - split; [split; reflexivity|]. intros acts. split; [intros H; discriminate H|intros [v [b H]]; discriminate H].
-  - split; [split; intros H; discriminate H|]. intros acts. split.
-    + intros H. inversion H; subst acts. eauto.
-    + intros [v [b H]]. inversion H; subst. reflexivity.
+  intros pfx v acts. unfold plan_with_prefix. destruct (String.eqb pfx "") eqn:He.
+  - apply String.eqb_eq in He. subst pfx. cbn [p_actions p_version]. split; [|reflexivity].
+    induction acts as [|a r IH]; [reflexivity|]. cbn [map]. rewrite <- IH. reflexivity.
+  - cbn [p_actions p_version]. split; reflexivity.
 Qed.
 
-(* with a prefix but no stored migration `sql` still shows what `diff` lists, table names prefixed *)
-Theorem sql_renders_prefixed_diff_without_history : forall P,
-  pj_migrations P = [] ->
-  (cmd_diff P = Ok DiffNone <-> cmd_sql P = Ok SqlNone)
-  /\ (forall acts, cmd_diff P = Ok (DiffChanges acts) ->
-        cmd_sql P = Ok (SqlRender 1 (map (action_with_prefix (pj_prefix P)) acts) [])).
+(* ONE statement for every project and every prefix (fix 72fa6f0): `sql` renders exactly the actions `diff` lists, table
+   names prefixed, with diff's version, against the replay of the prefixed history *)
+Theorem sql_renders_diff : forall P plans,
+  load_migrations P = Ok plans ->
+  let pfx := pj_prefix P in
+  (forall pb, prefixed_baseline pfx plans = Ok pb ->
+     (cmd_diff P = Ok DiffNone <-> cmd_sql P = Ok SqlNone)
+     /\ (forall acts, cmd_diff P = Ok (DiffChanges acts) ->
+           cmd_sql P = Ok (SqlRender (next_version plans) (map (action_with_prefix pfx) acts) pb))
+     /\ (forall v pacts b, cmd_sql P = Ok (SqlRender v pacts b) ->
+           exists acts, cmd_diff P = Ok (DiffChanges acts)
+                        /\ pacts = map (action_with_prefix pfx) acts /\ v = next_version plans /\ b = pb))
+  /\ (forall e, prefixed_baseline pfx plans = Err e -> (exists d, cmd_diff P = Ok d) -> cmd_sql P = Err (EBaseline e))
+  /\ ((exists e, cmd_diff P = Err e) -> exists e, cmd_sql P = Err e).
 Proof.
-  intros P Hm. unfold cmd_diff, cmd_sql, load_migrations. rewrite Hm.
-  cbn [validate_files map sort_plans sort_le fold_right].
-  destruct (load_models P) as [models|e].
-  2:{ split; [split; intros H; discriminate H|]. intros acts H; discriminate H. }
+  intros P plans Hl pfx. unfold cmd_diff, cmd_sql. rewrite Hl. fold pfx.
+  destruct (load_models P) as [models|e0].
+  2:{ split; [intros pb _; split; [split; intros H; discriminate H|]; split; [intros a H; discriminate H|intros v pa b H; discriminate H]|].
+      split; [intros e _ [d H]; discriminate H|intros _; eauto]. }
   rewrite plan_next_unfold.
-  change (replay []) with (@Ok schema planner_error []). cbv beta iota.
-  destruct (diff_actions [] models) as [acts0|e].
-  2:{ split; [split; intros H; discriminate H|]. intros acts H; discriminate H. }
-  assert (Hpp : p_actions (plan_with_prefix (pj_prefix P) (mkPlan "" None None (next_version []) acts0))
-                = map (action_with_prefix (pj_prefix P)) acts0
-                /\ p_version (plan_with_prefix (pj_prefix P) (mkPlan "" None None (next_version []) acts0)) = 1%N).
-  { unfold plan_with_prefix. destruct (String.eqb (pj_prefix P) "") eqn:He.
-    - apply String.eqb_eq in He. rewrite He. cbn [p_actions p_version]. split; [|reflexivity].
-      clear. induction acts0 as [|a r IH]; [reflexivity|]. cbn [map]. rewrite <- IH. reflexivity.
-    - cbn [p_actions p_version]. split; reflexivity. }
-  destruct Hpp as [Hpa Hpv]. rewrite Hpa, Hpv, is_nil_map. cbn [p_actions].
-  destruct (is_nil acts0) eqn:Hn.
-  - split; [split; reflexivity|]. intros acts H; discriminate H.
-  - split; [split; intros H; discriminate H|]. intros acts H. inversion H; subst acts. reflexivity.
+  destruct (replay plans) as [baseline|e0].
+  2:{ split; [intros pb _; split; [split; intros H; discriminate H|]; split; [intros a H; discriminate H|intros v pa b H; discriminate H]|].
+      split; [intros e _ [d H]; discriminate H|intros _; eauto]. }
+  destruct (diff_actions baseline models) as [acts0|e0].
+  2:{ split; [intros pb _; split; [split; intros H; discriminate H|]; split; [intros a H; discriminate H|intros v pa b H; discriminate H]|].
+      split; [intros e _ [d H]; discriminate H|intros _; eauto]. }
+  destruct (prefixed_plan_parts pfx (next_version plans) acts0) as [Hpa Hpv]. rewrite Hpa, Hpv, is_nil_map. cbn [p_actions].
+  split; [|split].
+  - intros pb Hpb. rewrite Hpb.
+    destruct (is_nil acts0) eqn:Hn.
+    + split; [split; reflexivity|]. split; [intros a H; discriminate H|intros v pa b H; discriminate H].
+    + split; [split; intros H; discriminate H|]. split.
+      * intros a H. inversion H; subst. reflexivity.
+      * intros v pa b H. inversion H; subst. exists acts0. auto.
+  - intros e He _. rewrite He. reflexivity.
+  - intros [e H]. destruct (is_nil acts0); discriminate H.
+Qed.
+
+(* the prefixed baseline exists whenever `diff` works, for the empty prefix and for an empty history *)
+Theorem sql_baseline_plain : forall P plans,
+  load_migrations P = Ok plans ->
+  (pj_prefix P = "" -> prefixed_baseline (pj_prefix P) plans = replay plans)
+  /\ (pj_migrations P = [] -> prefixed_baseline (pj_prefix P) plans = Ok []).
+Proof.
+  intros P plans Hl. unfold prefixed_baseline. split.
+  - intros ->. rewrite map_plan_with_prefix_empty. reflexivity.
+  - intros Hm. unfold load_migrations in Hl. rewrite Hm in Hl. cbn in Hl. inversion Hl; subst. reflexivity.
 Qed.
 
 (* ------------------------------------------------------------------ witnesses (closed by computation) *)
@@ -173,21 +186,17 @@ Definition P_prefix : project :=
             [("user.json", user_table true)]
             [("0001_init.vespertide.json", init_plan)].
 
-Lemma sql_prefix_refuted_witness :
-  cmd_diff P_prefix = Ok DiffNone
-  /\ exists cols ks b,
-       cmd_sql P_prefix = Ok (SqlRender 2 [CreateTable "app_user" cols ks; DeleteTable "app_app_user"] b).
-Proof. split; [vm_compute; reflexivity|]. do 3 eexists. vm_compute. reflexivity. Qed.
-
-Theorem sql_prefix_refuted :
-  exists P, pj_prefix P = "app_" /\ List.length (pj_models P) = 1%nat /\ List.length (pj_migrations P) = 1%nat
-            /\ cmd_diff P = Ok DiffNone
-            /\ exists v acts b, cmd_sql P = Ok (SqlRender v acts b) /\ acts <> [].
+(* the former D8 witness: diff is empty and so is sql; with a pending change sql shows it prefixed against app_user *)
+Theorem sql_prefix_witness :
+  pj_prefix P_prefix = "app_"
+  /\ cmd_diff P_prefix = Ok DiffNone /\ cmd_sql P_prefix = Ok SqlNone
+  /\ exists b,
+       cmd_sql (mkProject (pj_config P_prefix) [("user.json", user_table false)] (pj_migrations P_prefix))
+       = Ok (SqlRender 2 [ModifyColumnNullable "app_user" "email" false None] b)
+       /\ map t_name b = ["app_user"].
 Proof.
-  exists P_prefix. split; [reflexivity|]. split; [reflexivity|]. split; [reflexivity|].
-  split; [vm_compute; reflexivity|].
-  destruct sql_prefix_refuted_witness as [_ [cols [ks [b H]]]].
-  do 3 eexists. split; [exact H|]. intros Hc. discriminate Hc.
+  split; [reflexivity|]. split; [vm_compute; reflexivity|]. split; [vm_compute; reflexivity|].
+  eexists. split; vm_compute; reflexivity.
 Qed.
 
 (* the D7 witness (nullability change only): since fix b3fae31 status reports the difference *)
